@@ -82,6 +82,11 @@ func runC20(r *mc.Run) {
 		}
 	}
 	grids = append(grids, grid{2 * time.Minute, 30 * time.Second, true})
+	// maximum delays that are not whole seconds (below one second, and with a fraction above it)
+	for _, g := range []grid{{time.Second, 250 * time.Millisecond, false}, {4 * time.Second, 250 * time.Millisecond, false}, {4 * time.Second, 999 * time.Millisecond, false},
+		{4 * time.Second, 1500 * time.Millisecond, false}, {12 * time.Second, 2500 * time.Millisecond, false}, {5 * time.Second, 1000001 * time.Microsecond, false}} {
+		grids = append(grids, g)
+	}
 	if r.Thorough() {
 		for _, t := range []time.Duration{2 * time.Second, 7 * time.Second, 61 * time.Second} {
 			for _, d := range []time.Duration{2 * time.Second, 5 * time.Second, 8 * time.Second} {
